@@ -123,14 +123,19 @@ theorem negIter_inv (r27 s27 : Nat) (hr : powerOfOneOverFive[27]? = some r27) (h
 theorem add32_eq' (a b : Nat) (h : a + b < 2 ^ 32) : add32 a b = a + b := by
   unfold add32; exact Nat.mod_eq_of_lt h
 
+/-- the number of multiply-shift steps of `negScale num x`: one per 27 powers of five, one more for the rest -/
+def stepsOf (x : Nat) : Nat := x / 27 + (if x % 27 = 0 then 0 else 1)
+
+theorem stepsOf_le (x : Nat) : stepsOf x ≤ x / 27 + 1 := by unfold stepsOf; split <;> omega
+
 /-- **Error bound of the reciprocal pipeline.** For a 64-bit mantissa and `x ≤ 2^20`:
-`negScale num x = (b, x + 64 + S)` where, with `k ≤ x/27 + 1` the number of multiply-shift steps,
+`negScale num x = (b, x + 64 + S)` where, with `k = stepsOf x ≤ x/27 + 1` the number of multiply-shift steps,
 `b·5^x` is at most a relative `k·2^-62` above `num·2^(64+S)` and at most `k` units of `b` plus a
 relative `k·2^-62` below it. (`num·2^(64+S)/5^x` is the exact value the code aims at.) -/
-theorem negScale_error (num x : Nat) (hn : num < 2 ^ 64) (hx : x ≤ 2 ^ 20) :
-    ∃ b S k, negScale num x = some (b, x + 64 + S) ∧ k ≤ x / 27 + 1 ∧ S ≤ 64 * (x / 27 + 1) ∧
-      b * 5 ^ x * 2 ^ 62 ≤ num * 2 ^ (64 + S) * (2 ^ 62 + k) ∧
-      num * 2 ^ (64 + S) * 2 ^ 62 ≤ (b + k) * 5 ^ x * (2 ^ 62 + k) := by
+theorem negScale_error_steps (num x : Nat) (hn : num < 2 ^ 64) (hx : x ≤ 2 ^ 20) :
+    ∃ b S, negScale num x = some (b, x + 64 + S) ∧ S ≤ 64 * (x / 27 + 1) ∧
+      b * 5 ^ x * 2 ^ 62 ≤ num * 2 ^ (64 + S) * (2 ^ 62 + stepsOf x) ∧
+      num * 2 ^ (64 + S) * 2 ^ 62 ≤ (b + stepsOf x) * 5 ^ x * (2 ^ 62 + stepsOf x) := by
   obtain ⟨r27, s27, hr27, hs27, hcases⟩ := negScale_closed num x hn
   have hs27v : s27 = 62 := by
     have : powerOfOneOverFiveShift[27]? = some 62 := by decide
@@ -146,7 +151,9 @@ theorem negScale_error (num x : Nat) (hn : num < 2 ^ 64) (hx : x ≤ 2 ^ 20) :
   simp only [Nat.one_mul, Nat.zero_add] at hloop
   obtain ⟨l1, l2⟩ := hloop
   rcases hcases with ⟨h0, hps⟩ | ⟨h0, rj, sj, hrj, hsj, hps⟩
-  · refine ⟨negIter r27 (x / 27) (num * 2 ^ 64), s27 * (x / 27), x / 27, by rw [hps, hsh1], by omega,
+  · have hst : stepsOf x = x / 27 := by simp [stepsOf, h0]
+    rw [hst]
+    refine ⟨negIter r27 (x / 27) (num * 2 ^ 64), s27 * (x / 27), by rw [hps, hsh1],
       by rw [hs27v]; omega, ?_, ?_⟩
     · have e : 27 * (x / 27) = x := by omega
       rw [e] at l1
@@ -159,7 +166,9 @@ theorem negScale_error (num x : Nat) (hn : num < 2 ^ 64) (hx : x ≤ 2 ^ 20) :
     have hsj32 : sj < 64 := by
       have : ∀ i, i < 28 → ∀ s, powerOfOneOverFiveShift[i]? = some s → s < 64 := by decide
       exact this _ hjlt _ hsj
-    refine ⟨negIter r27 (x / 27) (num * 2 ^ 64) * rj / 2 ^ 64, s27 * (x / 27) + sj, x / 27 + 1, ?_, by omega,
+    have hst : stepsOf x = x / 27 + 1 := by simp [stepsOf, h0]
+    rw [hst]
+    refine ⟨negIter r27 (x / 27) (num * 2 ^ 64) * rj / 2 ^ 64, s27 * (x / 27) + sj, ?_,
       by rw [hs27v]; omega, ?_, ?_⟩
     · rw [hps, hsh1, add32_eq' _ _ (by rw [hs27v]; omega)]
       congr 2
@@ -174,5 +183,12 @@ theorem negScale_error (num x : Nat) (hn : num < 2 ^ 64) (hx : x ≤ 2 ^ 20) :
       have e2 : num * 2 ^ 64 * 2 ^ (s27 * (x / 27)) * 2 ^ sj = num * 2 ^ (64 + (s27 * (x / 27) + sj)) := by
         rw [Nat.pow_add, Nat.pow_add]; ring
       rw [e, e2, ← Nat.add_mul] at m2; exact m2
+
+theorem negScale_error (num x : Nat) (hn : num < 2 ^ 64) (hx : x ≤ 2 ^ 20) :
+    ∃ b S k, negScale num x = some (b, x + 64 + S) ∧ k ≤ x / 27 + 1 ∧ S ≤ 64 * (x / 27 + 1) ∧
+      b * 5 ^ x * 2 ^ 62 ≤ num * 2 ^ (64 + S) * (2 ^ 62 + k) ∧
+      num * 2 ^ (64 + S) * 2 ^ 62 ≤ (b + k) * 5 ^ x * (2 ^ 62 + k) := by
+  obtain ⟨b, S, h1, h2, h3, h4⟩ := negScale_error_steps num x hn hx
+  exact ⟨b, S, stepsOf x, h1, stepsOf_le x, h2, h3, h4⟩
 
 end Qentem.StrToNum
